@@ -344,7 +344,7 @@ impl Prop for C16 {
         "programs over $a $b $c: assignments (plain, !global, !default, both; 8% assign null) and reads at every level of nests of style rules, @media, @if/@else, @each, @for (loop variables named a, b, c or i), @while, mixin bodies (with @content), content blocks and function bodies, up to depth 4; two mixins and two functions are defined at the top level and included/called from anywhere. Every read records `variable-exists` and the value through a global accumulator. Oracle: a reference interpreter of Sass scoping (innermost declaring local scope wins; a global is shadowed in a local scope; top-level flow control is semi-global; !global writes the root; !default assigns iff undefined or null; a loop is one scope holding its loop variable; callables see their definition site, content blocks their include site). Non-trivial: a program with an assignment inside a nested block and a read after it, or a flagged assignment; distinct by program".into()
     }
     fn phases(&self, tier: Tier) -> Vec<Phase<Case>> {
-        vec![Phase::random("small", cases(2), tier.pick(20_000, 1_000_000)), Phase::random("deep", cases(4), tier.pick(20_000, 1_000_000))]
+        vec![Phase::random("small", cases(2), tier.pick(20_000, 500_000)), Phase::random("deep", cases(4), tier.pick(20_000, 500_000))]
     }
     fn render(&self, c: &Case) -> serde_json::Value {
         serde_json::json!({"src": source(c), "expected": model(c)})
